@@ -62,7 +62,12 @@ class Check:
         Print Assumptions, hygiene grep.  Returns True when all obligations discharged."""
         ok = True
         sh(["bash", os.path.join(VERIF, "tools/gencoqproject.sh")])
-        rc, out_make = sh("flock .make.lock make -k -j16 2>&1 | tail -30", cwd=COQ, timeout=3000)
+        # build only what this property's theorem files need (a runaway or broken file of another
+        # property must not block this check); every coqc under a time limit
+        props_dir0 = os.path.join(COQ, "theories/props")
+        targets = " ".join("theories/props/" + f[:-2] + ".vo" for f in sorted(os.listdir(props_dir0))
+                           if re.fullmatch(re.escape(self.pid) + r"(_[A-Za-z0-9]+)?\.v", f))
+        rc, out_make = sh("flock .make.lock make -k -j16 COQC='timeout 2400 coqc' %s 2>&1 | tail -30" % targets, cwd=COQ, timeout=6000)
         props_dir = os.path.join(COQ, "theories/props")
         srcs = sorted(os.path.join(props_dir, f) for f in os.listdir(props_dir)
                       if re.fullmatch(re.escape(self.pid) + r"(_[A-Za-z0-9]+)?\.v", f))
